@@ -612,7 +612,9 @@ def markup_doc(rng):
 
 
 MARKUP_STEPS = [["html", "all_whitespace"], ["html", "inline_whitespace"], ["html"],
-                ["html", "all_whitespace", "underscores"]]
+                ["html", "all_whitespace", "underscores"],
+                # 'html' not in first place: the steps apply in the order given
+                ["all_whitespace", "html"], ["inline_whitespace", "html", "all_whitespace"], ["underscores", "html"]]
 
 
 FILLER_WORDS = ["the", "court", "held", "that", "parallel", "conduct", "alone", "does", "not", "suffice", "under",
